@@ -47,6 +47,31 @@ def handle : List String → String
           | .err e => s!"err apply-{e}"
           | _ => "bad-op"
     | _, _ => "bad-op"
+  | "mutate" :: fhex :: _n :: muts =>
+    match fromHex fhex with
+    | none => "bad-op"
+    | some f =>
+      match DigestPE f, locate f with
+      | .ok d0, .ok blobs0 =>
+        let one (m : String) : String :=
+          match m.splitOn ":" with
+          | [p, b] =>
+            match p.toNat?, b.toNat? with
+            | some pos, some byte =>
+              let g := f.set pos (UInt8.ofNat byte)
+              if g = f then "same" else
+              match locate g with
+              | .ok blobs =>
+                if blobs ≠ blobs0 then "any"          -- the PKCS#7 blob itself changed: outside the model
+                else match DigestPE g with
+                  | .ok d => if d.hashed = d0.hashed then "pass" else "fail"
+                  | _ => "fail"
+              | _ => "fail"
+            | _, _ => "bad"
+          | _ => "bad"
+        let prot := s!"ck={d0.m.peStart + 88} dd={d0.m.posDDCert} orig={d0.origSize} cs={d0.certStart}"
+        s!"ok {" ".intercalate (muts.map one)} #{prot}"
+      | _, _ => "err unsigned-or-bad"
   | ["locate", fhex] =>
     match fromHex fhex with
     | none => "bad-op"
